@@ -9,6 +9,8 @@ import ComposeVerif.Gen.Tables
 import ComposeVerif.Model.Schema
 import ComposeVerif.Gen.Schema
 import ComposeVerif.Model.Unicity
+import ComposeVerif.Model.C01PipelineFS
+import ComposeVerif.Ops.Pipeline
 /-! line-protocol ops for C01: stage walkers, cycle tracker, extends / include / depends_on loops -/
 open Lean
 namespace CV.Ops.C01
@@ -306,7 +308,53 @@ def filesOp : Handler := fun args =>
   | .ok l => Json.mkObj [("ok", Json.arr (l.map Json.str).toArray)]
   | .err c p => Json.mkObj [("err", c), ("path", p)]
 
-def handlers : List (String × Handler) := [("c01reset", resetOp), ("c01files", filesOp), ("c01unicityLoop", unicityLoopOp), ("c01pipe", pipeOp),
+/-- `c01pipeFS`: the composed pipeline with cross-file extends (`Model/C01PipelineFS.lean`).  Arguments of `pipeline.load`
+plus `"bases":[{"ref":…, "reldir":…, "docs":[T(map)…]}…]` → `{"ok": T}` | `{"err": stage}` | `{"panic": site}` -/
+def pipeFSOp : Handler := fun args =>
+  match CV.Ops.Pipeline.docsOf (getObj args "docs") with
+  | .error e => Json.mkObj [("bad", e)]
+  | .ok docs =>
+    let bases : Except String (List CV.C01PipeFS.BaseFile) :=
+      match getObj args "bases" with
+      | .arr bs => bs.toList.mapM fun b => do
+          let ds ← CV.Ops.Pipeline.docsOf (getObj b "docs")
+          pure { ref := getStr b "ref", relDir := getStr b "reldir", docs := ds }
+      | _ => .ok []
+    match bases with
+    | .error e => Json.mkObj [("bad", e)]
+    | .ok bs =>
+      match CV.C01PipeFS.loadFS (CV.Ops.Pipeline.cfgOf args) bs docs with
+      | .ok kvs => Json.mkObj [("ok", CV.Val.toJson (.map kvs))]
+      | .err e => Json.mkObj [("err", e)]
+      | .panic s => Json.mkObj [("panic", s)]
+
+/-- `c01filesProject`: `{"disk":…, "skip_env":…, "services":[{"env_files":[…], "label_files":[…]}…]}` → the outcome of
+`Files.resolveProject` for EVERY visit order of the services (the Go map hands them out in any order):
+`{"outs":[{"ok":[…]} | {"err":cls,"path":p} …]}` -/
+def insertEverywhereG {α : Type} (x : α) : List α → List (List α)
+  | [] => [[x]]
+  | y :: r => (x :: y :: r) :: (insertEverywhereG x r).map (y :: ·)
+
+def permsG {α : Type} : List α → List (List α)
+  | [] => [[]]
+  | x :: r => (permsG r).flatMap (insertEverywhereG x)
+
+def filesProjectOp : Handler := fun args =>
+  let fs := diskOf (getObj args "disk")
+  let svcs : List CV.C01.Files.Svc := match getObj args "services" with
+    | .arr a => a.toList.map fun sv =>
+        { envFiles := match getObj sv "env_files" with
+            | .arr es => es.toList.map fun e => { path := getStr e "path", required := getBool e "required" }
+            | _ => []
+          labelFiles := getStrList sv "label_files" }
+    | _ => []
+  let outs : List Json := (permsG svcs).map fun order =>
+    match CV.C01.Files.resolveProject fs (getBool args "skip_env") order with
+    | .ok l => Json.mkObj [("ok", Json.arr (l.map Json.str).toArray)]
+    | .err c p => Json.mkObj [("err", c), ("path", p)]
+  Json.mkObj [("outs", Json.arr outs.toArray)]
+
+def handlers : List (String × Handler) := [("c01filesProject", filesProjectOp), ("c01pipeFS", pipeFSOp), ("c01reset", resetOp), ("c01files", filesOp), ("c01unicityLoop", unicityLoopOp), ("c01pipe", pipeOp),
   ("c01convert", convertOp), ("c01convertTop", convertTopOp), ("c01fixEmpty", fixEmptyOp), ("c01omitEmpty", omitEmptyOp),
   ("c01tracker", trackerOp), ("c01extends", extendsOp), ("c01include", includeOp), ("c01checkCycle", checkCycleOp)]
 
